@@ -415,19 +415,26 @@ package middleware
 //@ ensures [C02:anon] ra.allowAnonymous ==> result0 && result1 == nil && result2 == nil && route.Authenticator == ra && calls(A) == 0
 //@ ensures [C02:calls] forall i int :: called(A,i) ==> 0 <= i && i < len(ra.Schemes) && raReg(ra, i) && recv(A,i) == ra.Authenticator[ra.Schemes[i]]
 //@ ensures [C02:args] forall i int :: called(A,i) ==> unboxptr(arg(A,i,0), "*security.ScopedAuthRequest").Request == req && unboxptr(arg(A,i,0), "*security.ScopedAuthRequest").RequiredScopes == ra.Scopes[ra.Schemes[i]]
-//@ ensures [C02:prefix] forall i int, j int :: called(A,j) && 0 <= i && i < j && raReg(ra, i) ==> called(A,i) && ret(A,i,0) && ret(A,i,2) == nil
-//@ ensures [C02:all] !ra.allowAnonymous && result0 && result2 == nil ==> forall i int :: 0 <= i && i < len(ra.Schemes) && raReg(ra, i) ==> called(A,i) && ret(A,i,0) && ret(A,i,2) == nil
-//@ ensures [C02:registered] !ra.allowAnonymous && result0 && result2 == nil ==> forall i int :: 0 <= i && i < len(ra.Schemes) ==> raReg(ra, i)
-//@ ensures [C02:principal] !ra.allowAnonymous && result0 && result2 == nil ==> route.Authenticator == ra && (result1 == nil || exists i int :: called(A,i) && result1 == ret(A,i,1))
-//@ ensures [C02:notapplicable] !ra.allowAnonymous && !result0 ==> result1 == nil && result2 == nil && route.Authenticator == old(route.Authenticator)
+// every scheme of the alternative is consulted unless one rejects (the outcome does not depend on their order):
+// a rejection refuses the request with that scheme's error; otherwise one scheme that does not apply (or has no registered
+// authenticator) makes the alternative not applicable; otherwise it applies, with a principal only if every scheme gave one
+//@ spec consulted(i) := called(A,i) && recv(A,i) == ra.Authenticator[ra.Schemes[i]]
 //@ ensures [C02:rejected] !ra.allowAnonymous && result0 && result2 != nil ==> result1 == nil && route.Authenticator == ra && exists i int @try(rangeindex+1) :: called(A,i) && ret(A,i,0) && result2 == ret(A,i,2)
+//@ ensures [C02:everyone] !ra.allowAnonymous && !(result0 && result2 != nil) ==> forall i int :: 0 <= i && i < len(ra.Schemes) && raReg(ra, i) ==> called(A,i) && (ret(A,i,0) ==> ret(A,i,2) == nil)
+//@ ensures [C02:notapplicable] !ra.allowAnonymous && !result0 ==> result1 == nil && result2 == nil && route.Authenticator == old(route.Authenticator) && exists i int :: 0 <= i && i < len(ra.Schemes) && (!raReg(ra, i) || (called(A,i) && !ret(A,i,0)))
+//@ ensures [C02:all] !ra.allowAnonymous && result0 && result2 == nil ==> route.Authenticator == ra && forall i int :: 0 <= i && i < len(ra.Schemes) ==> raReg(ra, i) && called(A,i) && ret(A,i,0) && ret(A,i,2) == nil
+//@ ensures [C02:principal] !ra.allowAnonymous && result0 && result2 == nil && result1 != nil ==> (forall i int :: 0 <= i && i < len(ra.Schemes) ==> ret(A,i,1) != nil) && exists i int :: called(A,i) && result1 == ret(A,i,1)
+//@ ensures [C02:nilprincipal] !ra.allowAnonymous && result0 && result2 == nil && result1 == nil && len(ra.Schemes) > 0 ==> exists i int :: 0 <= i && i < len(ra.Schemes) && called(A,i) && ret(A,i,1) == nil
 //@ assigns route.Authenticator, \opaque
-//@ loop 0 invariant forall i int :: called(A,i) ==> 0 <= i && i <= rangeindex && raReg(ra, i) && recv(A,i) == ra.Authenticator[ra.Schemes[i]] && ret(A,i,0) && ret(A,i,2) == nil
+//@ loop 0 invariant forall i int :: called(A,i) ==> 0 <= i && i <= rangeindex && raReg(ra, i) && recv(A,i) == ra.Authenticator[ra.Schemes[i]] && (ret(A,i,0) ==> ret(A,i,2) == nil)
 //@ loop 0 invariant forall i int :: called(A,i) ==> allocated(unboxptr(arg(A,i,0), "*security.ScopedAuthRequest"))
 //@ loop 0 invariant forall i int :: called(A,i) ==> unboxptr(arg(A,i,0), "*security.ScopedAuthRequest").Request == req
 //@ loop 0 invariant forall i int :: called(A,i) ==> unboxptr(arg(A,i,0), "*security.ScopedAuthRequest").RequiredScopes == ra.Scopes[ra.Schemes[i]]
-//@ loop 0 invariant forall i int :: 0 <= i && i <= rangeindex ==> raReg(ra, i) && called(A,i)
+//@ loop 0 invariant forall i int :: 0 <= i && i <= rangeindex && raReg(ra, i) ==> called(A,i)
+//@ loop 0 invariant notApplicable <==> exists i int :: 0 <= i && i <= rangeindex && (!raReg(ra, i) || (called(A,i) && !ret(A,i,0)))
+//@ loop 0 invariant nilPrincipal <==> exists i int :: 0 <= i && i <= rangeindex && called(A,i) && ret(A,i,0) && ret(A,i,1) == nil
 //@ loop 0 invariant lastResult == nil || exists i int :: called(A,i) && lastResult == ret(A,i,1)
+//@ loop 0 invariant !notApplicable && !nilPrincipal && rangeindex >= 0 ==> lastResult != nil
 //@ loop 0 invariant route.Authenticator == old(route.Authenticator) && !ra.allowAnonymous
 
 //@ func (*RouteAuthenticator).AllowsAnonymous
